@@ -150,15 +150,16 @@ def finishFlow (fs : List FState) (i : Nat) (response : Bool) : List FState :=
   | some f => fs.set i { f with cur := (if response then { f.cur with resp := true } else { f.cur with err := true }), lv := false }
   | none => fs
 
-/-- a still-queued flow is also in flight (awaited by the loop, or replayed by a background task): `revert()` then rewrites the state of the running replay
-    (and raises on its open server connection) — finding F-C53b; outside the modelled domain -/
-def stopBlocked (s : St) : Bool := s.queue.any (fun e => isInflight s e.idx || s.bg.any (fun p => p.1.idx == e.idx))
+/-- flow `i` has a replay running whose request is out, i.e. whose server connection is open -/
+def openConn (s : St) (i : Nat) : Bool :=
+  (match s.inflight with | some (e, .sent) => e.idx == i | _ => false) ||
+    s.bg.any (fun p => p.1.idx == i && p.2 == .sent)
 
-/-- the HTTP layer marks the flow live when its replay starts -/
-def markLive (fs : List FState) (i : Nat) : List FState :=
-  match fs[i]? with
-  | some f => fs.set i { f with lv := true }
-  | none => fs
+/-- a still-queued flow also has a replay running over an open server connection (awaited by the loop, or a
+    background task): `revert()` then rewrites the live connection object of the running replay (and raises if the
+    backed-up server address differs) — findings F-C53b / F-C53c; outside the modelled domain.  A queued flow whose
+    running replay has not connected yet is reverted like any other. -/
+def stopBlocked (s : St) : Bool := s.queue.any (fun e => openConn s e.idx)
 
 /-- the request of background replay `t` has been written -/
 def markSent (t : Nat) (p : Entry × Phase) : Entry × Phase :=
